@@ -24,6 +24,7 @@ type Program struct {
 	repo   string
 
 	guarantees map[string]Clause       // heap name -> two-state guarantee
+	ranges     map[string]Clause       // heap name -> assumed range of the stored value
 	monitors   map[string]*MonitorDecl // struct type key -> monitor
 }
 
@@ -122,6 +123,15 @@ func loadProgram(repo string, patterns []string, specDir string) (*Program, erro
 			return nil, fmt.Errorf("%s: guarantee on unknown type %s", gd.Clause.Where, gd.Designator)
 		}
 		p.guarantees["F."+typeKey(obj.Type())+"."+gd.Designator[i+1:]] = gd.Clause
+	}
+	p.ranges = map[string]Clause{}
+	for _, gd := range p.cs.Ranges {
+		tp := p.typesPkg(gd.Pkg)
+		i := strings.LastIndex(gd.Designator, ".")
+		if tp == nil || i < 0 || tp.Scope().Lookup(gd.Designator[:i]) == nil {
+			return nil, fmt.Errorf("%s: bad range designator %s", gd.Clause.Where, gd.Designator)
+		}
+		p.ranges["F."+typeKey(tp.Scope().Lookup(gd.Designator[:i]).Type())+"."+gd.Designator[i+1:]] = gd.Clause
 	}
 	for _, m := range p.cs.Monitors {
 		tp := p.typesPkg(m.Pkg)
